@@ -304,6 +304,7 @@ func init() {
 			{Name: "shipped", TShards: 4, Run: c08Shipped},
 			{Name: "reuse", TShards: 4, Run: func(c *Ctx) { alignReuse(c, alignOpts{validity: true}, 0) }},
 			{Name: "readers", Race: true, QShards: 2, TShards: 4, Run: c08Readers},
+			{Name: "large", QShards: 2, TShards: 8, Run: func(c *Ctx) { alignLarge(c, alignOpts{validity: true}, c08Gen) }},
 		},
 	})
 	register(&Property{
@@ -322,6 +323,7 @@ func init() {
 			{Name: "shipped", TShards: 4, Run: c09Shipped},
 			{Name: "tables", Run: c09Tables},
 			{Name: "reuse", TShards: 4, Run: func(c *Ctx) { alignReuse(c, alignOpts{validity: true, optimal: true}, 1) }},
+			{Name: "large", QShards: 2, TShards: 8, Run: func(c *Ctx) { alignLarge(c, alignOpts{validity: true, optimal: true}, c09Gen) }},
 		},
 	})
 	register(&Property{
@@ -338,6 +340,7 @@ func init() {
 			{Name: "random", QShards: 2, TShards: 8, Run: c10Random},
 			{Name: "witnesses", Run: c10Witnesses},
 			{Name: "reuse", TShards: 4, Run: func(c *Ctx) { alignReuse(c, alignOpts{validity: true, optimal: true, knownC10: true}, 2) }},
+			{Name: "large", QShards: 2, TShards: 8, Run: func(c *Ctx) { alignLarge(c, alignOpts{validity: true, optimal: true, knownC10: true}, c10Gen) }},
 		},
 	})
 }
@@ -546,6 +549,22 @@ func c09Shipped(c *Ctx) {
 			k.Input("a", a)
 			k.Input("b", b)
 			alignCase(k, a, b, nm.m, alignOpts{validity: true, optimal: true, local: true})
+			if i%16 < len(ms) {
+				// A caller derives a private matrix from the shipped one and edits it:
+				// the shipped matrix must stay what it was (symmetric, complete).
+				snap := copyMatrix(nm.m)
+				d := nm.m.Symmetrical()
+				x, y := proteinAlphabet[r.IntN(len(proteinAlphabet))], proteinAlphabet[r.IntN(len(proteinAlphabet))]
+				d[[2]byte{x, y}] += 3
+				delete(d, [2]byte{y, align.Gap})
+				if diff := sameMatrix(nm.m, snap); diff != "" {
+					for key, v := range snap { // put it back: the other cases of this worker use it
+						nm.m[key] = v
+					}
+					k.Failf("shipped-matrix-changed", "%s changed after a matrix derived from it with Symmetrical() was edited: %s", nm.name, diff)
+				}
+				k.Count("derived_matrix_edits", 1)
+			}
 			// Swapping the arguments leaves the scores unchanged.
 			_, g1 := align.Global(a, b, nm.m)
 			_, g2 := align.Global(b, a, nm.m)
@@ -781,4 +800,40 @@ func alignReuse(c *Ctx, o alignOpts, mode int) {
 
 func sortKeys(keys [][2]byte) {
 	sort.Slice(keys, func(i, j int) bool { return bytes.Compare(keys[i][:], keys[j][:]) < 0 })
+}
+
+// alignLarge: DP tables of 2^24 cells and more (4096 x 4096 and beyond, square
+// and very skinny): index arithmetic, table budgets and anything else that
+// depends on the table size rather than on the content. Related sequences, so
+// that the alignments are real ones.
+func alignLarge(c *Ctx, o alignOpts, gen func(r *rand.Rand, mi int, alpha []byte) (align.SubstitutionMatrix, bool)) {
+	shapes := [][2]int{{4100, 4100}, {70000, 250}}
+	if c.Thorough {
+		shapes = [][2]int{{4100, 4100}, {70000, 250}, {250, 70000}, {4096, 4096}, {4095, 4097}, {9000, 2100}, {1 << 20, 17}, {3, 1 << 23}}
+	}
+	for i, sh := range shapes {
+		c.Case(int64(i), func(k *K) {
+			r := k.Rand()
+			alpha := []byte("acgt")
+			m, local := gen(r, 0, alpha)
+			a := randSeq(r, alpha, sh[0])
+			b := make([]byte, sh[1])
+			for j := range b { // b follows a (stretched or squeezed to its own length) with mutations
+				b[j] = a[j*len(a)/len(b)]
+				if r.IntN(8) == 0 {
+					b[j] = alpha[r.IntN(len(alpha))]
+				}
+			}
+			k.Input("len_a", sh[0])
+			k.Input("len_b", sh[1])
+			k.Input("cells", (sh[0]+1)*(sh[1]+1))
+			k.Input("a_head", a[:min(len(a), 64)])
+			k.Input("matrix", matrixDesc(m))
+			oo := o
+			oo.local = local
+			alignCase(k, a, b, m, oo)
+			k.Count("large_table_cases", 1)
+			k.Nontrivial([]byte(fmt.Sprint(sh)), a[:min(len(a), 64)], []byte(matrixString(m)))
+		})
+	}
 }
